@@ -88,7 +88,10 @@ pub fn seq_case_from_bytes(data: &[u8]) -> SeqCase {
             }),
             12 => Op::DeadlineWalk { k: byte(u) % max_key },
             13 => Op::SweepRotation,
-            14 => Op::ReadAll { keys: vec![byte(u) % max_key] },
+            14 => if byte(u) % 2 == 0 { Op::ReadAll { keys: vec![byte(u) % max_key] } } else {
+                let count = 2 + byte(u) % 3;
+                Op::IterSteps { map: byte(u) % 2 == 0, keys: (0..count).map(|_| byte(u) % max_key).collect(), between: (0..count - 1).map(|_| write_op(u, max_key)).collect() }
+            },
             _ => {
                 let count = 1 + byte(u) % 6;
                 Op::Stall { burst: (0..count).map(|_| match byte(u) % 8 { 0 => read_op(u, max_key), 1 => Op::StepWorker, _ => write_op(u, max_key) }).collect() }
